@@ -2,6 +2,7 @@
   Specification of `_prepare_for_sending` and facts about frame serialisation used by several properties.
 -/
 import H2.Proofs.Wp
+import H2.Proofs.Bytes
 
 namespace H2
 open H2.Gen H2.Conn
@@ -64,5 +65,29 @@ theorem goaway_serialize (last code : Int) (extra : Bytes) (hc : 0 ≤ code ∧ 
     ∃ b, (Frame.goaway last code extra).serialize? = some b ∧ (Frame.goaway last code extra).bodyLen = 8 + extra.length := by
   simp [Frame.serialize?, Frame.body?, u32?, u8?, Frame.typeCode, Frame.flagByte, Frame.bodyLen, be32, hc.1, hc.2]
   omega
+
+theorem u8?_lit8 : u8? (8 : Int) = some [8] := by decide
+theorem u8?_lit6 : u8? (6 : Int) = some [6] := by decide
+theorem u8?_lit4 : u8? (4 : Int) = some [4] := by decide
+theorem u8?_nat0 : u8? ((0 : Nat) : Int) = some [0] := by decide
+theorem u8?_nat1 : u8? ((1 : Nat) : Int) = some [1] := by decide
+
+theorem wu_serialize (sid incr : Int) :
+    ∃ b, (Frame.windowUpdate sid incr).serialize? = some b ∧ (Frame.windowUpdate sid incr).bodyLen = 4 := by
+  refine ⟨be16 (4 / 256 % 65536) ++ [UInt8.ofNat (4 % 256)] ++ [8] ++ [0] ++ be32 (mask31 sid) ++ be32 (mask31 incr), ?_, ?_⟩
+  · simp only [Frame.serialize?, Frame.body?, Frame.typeCode, Frame.flagByte, Frame.sid, u8?_lit8, u8?_nat0, bind,
+      Option.bind, pure, be32_length]
+  · simp only [Frame.bodyLen, Frame.body?, Option.getD, be32_length]
+
+theorem ping_serialize (ack : Bool) (d : Bytes) (h : d.length = 8) :
+    ∃ b, (Frame.ping ack d).serialize? = some b ∧ (Frame.ping ack d).bodyLen = 8 := by
+  have hbody : (Frame.ping ack d).body? = some d := by simp [Frame.body?, h, zeros]
+  refine ⟨be16 (8 / 256 % 65536) ++ [UInt8.ofNat (8 % 256)] ++ [6] ++ [if ack then 1 else 0] ++ be32 (mask31 0) ++ d, ?_, ?_⟩
+  · simp only [Frame.serialize?, hbody, Frame.typeCode, Frame.flagByte, Frame.sid, u8?_lit6, bind, Option.bind, pure, h]
+    cases ack <;> simp only [u8?_nat0, u8?_nat1, if_true, if_false, Bool.false_eq_true] <;> rfl
+  · simp [Frame.bodyLen, hbody, h]
+
+theorem settings_ack_serialize : ∃ b, (Frame.settings true []).serialize? = some b ∧ (Frame.settings true []).bodyLen = 0 :=
+  ⟨_, rfl, rfl⟩
 
 end H2
